@@ -90,6 +90,8 @@ func runR07_8(c *Ctx, r *R) {
 		return
 	}
 	// the subtraction  recvBytes.Add(-x)  and the update  sender.sendWindow(ctx, x)
+	key := fnKey(f) + "/credit-kept"
+	f = ackHost(f)
 	var sub, send *ssa.Call
 	var amount ssa.Value
 	for _, call := range callsIn(f, false) {
@@ -106,7 +108,6 @@ func runR07_8(c *Ctx, r *R) {
 			send = cv
 		}
 	}
-	key := fnKey(f) + "/credit-kept"
 	if sub == nil || send == nil {
 		r.Unk(key, f.Pos(), "anchor lost: no recvBytes.Add(-x) / sendWindow pair in ReceiveAsync")
 		return
@@ -195,4 +196,35 @@ func runR07_8(c *Ctx, r *R) {
 	default:
 		r.Bad(key, sub.Pos(), "the return at %s is reached with the acknowledged amount subtracted from recvBytes although the window update was not sent (its status is not OK on that path) and the amount was not added back: the sender never regains this window - after consuming everything the receiver waits for data while the sender waits for credit", bad)
 	}
+}
+
+// ackHost: the function that keeps the consumed-bytes counter for ReceiveAsync - ReceiveAsync itself, or the helper
+// of the package it calls for that (channelState.incrementRecvBytes), two call levels at most.
+func ackHost(f *ssa.Function) *ssa.Function {
+	var find func(g *ssa.Function, depth int) *ssa.Function
+	find = func(g *ssa.Function, depth int) *ssa.Function {
+		if len(fieldMethodCalls(g, "recvBytes", "Add")) > 0 {
+			return g
+		}
+		if depth >= 2 {
+			return nil
+		}
+		for _, call := range callsIn(g, false) {
+			if _, isCall := call.(*ssa.Call); !isCall {
+				continue
+			}
+			h := call.Common().StaticCallee()
+			if h == nil || h.Blocks == nil || h.Pkg != f.Pkg || h == g {
+				continue
+			}
+			if x := find(h, depth+1); x != nil {
+				return x
+			}
+		}
+		return nil
+	}
+	if h := find(f, 0); h != nil {
+		return h
+	}
+	return f
 }
